@@ -20,6 +20,8 @@ func init() {
 }
 
 func runC12(r *engine.Run) {
+	r.Rule("DOM-rejectshape", "DeserializeNode and its helpers refuse a record only for its shape (a len(...) comparison, a nil part, a failed kind test), never on a condition over decoded values: the trie keeps weights modulo 2^64 on every side, so a value check in the decoder rejects records and exports the library produced itself")
+	r.Rule("PRESENCE-byweight", "no comparison in core/util/wmpt takes a weight of 0 for absence (a weight compared with the constant 0): entries of weight 0 are entries whose hashes their ancestors commit to - a checkpoint copy that skips them, or a rollback that takes a zero-weight root for the empty trie, no longer stands for the checkpoint state")
 	r.Rule("FRESH-keybuf", "see C10: a node's key - and a leaf's value bytes, which are the slice the caller handed to Put - is never the base of an append: rewriting the bytes in place changes every other holder of the slice behind its cached hash, which the separately decoded partial trie does not share")
 	r.Rule("FRESH-resolved", "see C09: the node resolveHashNode hands to the walk is freshly decoded and kept nowhere else (a decoded-node cache gives two positions with the same hash one object in the source trie, two in the partial trie: an in-place update diverges them)")
 	r.Rule("AGREE-branches", "in GetPath every path from entry to the collection of nodes passes through one of the two marking loops (the parallel one over a branch root's children or the sequential one from the root): for every number of requested keys and every root kind the requested paths are marked before the export is assembled")
@@ -67,6 +69,8 @@ func runC12(r *engine.Run) {
 	refShortRef(r, "REF-shortref")
 	freshKeyBuf(r, "FRESH-keybuf")
 	freshResolved(r, "FRESH-resolved")
+	presenceByWeight(r, "PRESENCE-byweight")
+	decoderRejections(r, "DOM-rejectshape")
 }
 
 func exhWSubset(r *engine.Run, rule string, name string) {
@@ -371,6 +375,8 @@ func isHashCallOnValueOf(v ssa.Value, sn ssa.Value) bool {
 // ---- C13 ---------------------------------------------------------------------
 
 func runC13(r *engine.Run) {
+	r.Rule("DOM-emptied", "where Update/Delete install the empty node as the root after a removal, the installed root reports Dirty(): otherwise the commit of a batch that removes every key is no commit (clean-root shortcut), the created list of the previous commit survives it, and RollbackTrie to a copy taken before the removal deletes the nodes of the state it goes back to")
+	r.Rule("PRESENCE-byweight", "no comparison in core/util/wmpt takes a weight of 0 for absence (a weight compared with the constant 0): entries of weight 0 are entries whose hashes their ancestors commit to - a checkpoint copy that skips them, or a rollback that takes a zero-weight root for the empty trie, no longer stands for the checkpoint state")
 	r.Rule("AGREE-rollback", "Rollback and RollbackTrie reset the same bookkeeping (created, tempDeleted, deleted) and both delete exactly the hashes in `created` through one batch; RollbackTrie assigns the root from its node argument; the created-hash handler of a commit appends every received hash to the created list")
 	r.Rule("AGREE-checkpoint", "the fields of the checkpoint written by SaveRoot (hash, weight of the current root) are exactly those Rollback restores the root from, and SaveRoot resets `created`")
 	r.Rule("DOM-created", "see C11: every node a commit writes is recorded as created (also at the collapse level), so that a rollback removes it from storage")
@@ -406,6 +412,8 @@ func runC13(r *engine.Run) {
 	recordsEvery(r, "AGREE-rollback")
 	orderStage(r)
 	kvAdapter(r, "AGREE-kvops")
+	presenceByWeight(r, "PRESENCE-byweight")
+	domEmptied(r, "DOM-emptied")
 }
 
 func bookkeepingResets(f *ssa.Function) (map[string]bool, bool, bool) {
